@@ -107,4 +107,872 @@ theorem scale_eq_core (T : Table) (v : Int) (frm dst : Str) :
     conv_rhs => rw [this, scaleCore_neg]
   · rfl
 
+
+namespace Q
+theorem le_total' (a b : Q) : le a b ∨ le b a := by unfold le; omega
+theorem le_of_not_le {a b : Q} (h : ¬ le a b) : le b a := by unfold le at *; omega
+theorem le_trans' {a b c : Q} (hb : 0 < b.den) (ha : 0 < a.den) (hc : 0 < c.den)
+    (h1 : le a b) (h2 : le b c) : le a c := by
+  unfold le at *
+  have hb' : (0 : Int) < b.den := by exact_mod_cast hb
+  have ha' : (0 : Int) < a.den := by exact_mod_cast ha
+  have hc' : (0 : Int) < c.den := by exact_mod_cast hc
+  have e1 : a.num * b.den * c.den ≤ b.num * a.den * c.den := Int.mul_le_mul_of_nonneg_right h1 (le_of_lt hc')
+  have e2 : b.num * c.den * a.den ≤ c.num * b.den * a.den := Int.mul_le_mul_of_nonneg_right h2 (le_of_lt ha')
+  have : (a.num * c.den) * b.den ≤ (c.num * a.den) * b.den := by nlinarith
+  exact Int.le_of_mul_le_mul_right this hb'
+end Q
+
+def AutoInv (m : Q) (seen : List MUnit) (acc : Q × Str) : Prop :=
+  (acc = (Q.zero, []) ∧ ∀ u ∈ seen, ¬ Qual m u) ∨
+  (∃ u ∈ seen, acc = (u.factor, u.name) ∧ Qual m u ∧ ∀ w ∈ seen, Qual m w → Q.le w.factor u.factor)
+
+theorem autoStep_inv (m : Q) (seen : List MUnit) (acc : Q × Str) (u : MUnit)
+    (hs : ∀ w ∈ seen, PosU w) (hu : PosU u) (h : AutoInv m seen acc) :
+    AutoInv m (seen ++ [u]) (autoStep m acc u) := by
+  unfold autoStep
+  by_cases hq : Qual m u
+  · have hqB : Q.leB Q.one (m.abs.div u.factor) = true := by simpa [Q.leB, Qual] using hq
+    rcases h with ⟨hacc, hnone⟩ | ⟨a, ha, hacc, hqa, hmax⟩
+    · -- nothing chosen yet: zero ≤ any positive factor
+      have : Q.leB acc.1 u.factor = true := by
+        subst hacc
+        have h1 := hu.1
+        simp [Q.leB, Q.le, Q.zero, Gen.Units.RawUnit.factor]
+        omega
+      simp only [this, hqB, Bool.and_self, if_true]
+      right
+      refine ⟨u, by simp, rfl, hq, ?_⟩
+      intro w hw hqw
+      rcases List.mem_append.1 hw with hw | hw
+      · exact absurd hqw (hnone w hw)
+      · simp at hw; subst hw; unfold Q.le; omega
+    · by_cases hle : Q.le acc.1 u.factor
+      · have : Q.leB acc.1 u.factor = true := by simpa [Q.leB] using hle
+        simp only [this, hqB, Bool.and_self, if_true]
+        right
+        refine ⟨u, by simp, rfl, hq, ?_⟩
+        intro w hw hqw
+        rcases List.mem_append.1 hw with hw | hw
+        · have h1 := hmax w hw hqw
+          rw [hacc] at hle
+          have pa := hs a ha
+          have pw := hs w hw
+          exact Q.le_trans' (b := a.factor) (by exact pa.2) (by exact pw.2) (by exact hu.2) h1 hle
+        · simp at hw; subst hw; unfold Q.le; omega
+      · have : Q.leB acc.1 u.factor = false := by simpa [Q.leB] using hle
+        simp only [this, Bool.false_and]
+        right
+        refine ⟨a, by simp [ha], hacc, hqa, ?_⟩
+        intro w hw hqw
+        rcases List.mem_append.1 hw with hw | hw
+        · exact hmax w hw hqw
+        · simp at hw; subst hw
+          rw [hacc] at hle
+          exact Q.le_of_not_le hle
+  · have hqB : Q.leB Q.one (m.abs.div u.factor) = false := by simpa [Q.leB, Qual] using hq
+    simp only [hqB, Bool.and_false]
+    rcases h with ⟨hacc, hnone⟩ | ⟨a, ha, hacc, hqa, hmax⟩
+    · left
+      refine ⟨hacc, ?_⟩
+      intro w hw
+      rcases List.mem_append.1 hw with hw | hw
+      · exact hnone w hw
+      · simp at hw; subst hw; exact hq
+    · right
+      refine ⟨a, by simp [ha], hacc, hqa, ?_⟩
+      intro w hw hqw
+      rcases List.mem_append.1 hw with hw | hw
+      · exact hmax w hw hqw
+      · simp at hw; subst hw; exact absurd hqw hq
+
+theorem autoFold_inv (m : Q) : ∀ (us seen : List MUnit) (acc : Q × Str),
+    (∀ w ∈ seen, PosU w) → (∀ w ∈ us, PosU w) → AutoInv m seen acc →
+    AutoInv m (seen ++ us) (us.foldl (autoStep m) acc)
+  | [], seen, acc, _, _, h => by simpa using h
+  | u :: us, seen, acc, hs, hu, h => by
+    have h1 := autoStep_inv m seen acc u hs (hu u (by simp)) h
+    have := autoFold_inv m us (seen ++ [u]) (autoStep m acc u)
+      (by intro w hw; rcases List.mem_append.1 hw with hw | hw
+          · exact hs w hw
+          · simp at hw; subst hw; exact hu w (by simp))
+      (by intro w hw; exact hu w (by simp [hw])) h1
+    simpa using this
+
+/-- `autoScale` picks the unit with the largest factor among those that keep the magnitude at
+or above one, and fails exactly when there is none. -/
+theorem autoScale_spec (F : Family) (m : Q) (hpos : ∀ u ∈ F.units, PosU u) :
+    match autoScale F m with
+    | none => ∀ u ∈ F.units, ¬ Qual m u
+    | some r => ∃ u ∈ F.units, r = (m.div u.factor, u.name) ∧ Qual m u ∧
+        ∀ w ∈ F.units, Qual m w → Q.le w.factor u.factor := by
+  have h := autoFold_inv m F.units [] (Q.zero, []) (by simp) hpos (Or.inl ⟨rfl, by simp⟩)
+  simp only [List.nil_append] at h
+  unfold autoScale
+  simp only
+  rcases h with ⟨hacc, hnone⟩ | ⟨a, ha, hacc, hqa, hmax⟩
+  · rw [hacc]; simpa [Q.zero] using hnone
+  · rw [hacc]
+    have : a.factor.num ≠ 0 := by
+      have := (hpos a ha).1
+      simp only [Gen.Units.RawUnit.factor]; omega
+    simp only [this, if_false]
+    exact ⟨a, ha, rfl, hqa, hmax⟩
+
+theorem findByAlias_some {F : Family} {a : Str} {u : MUnit} (h : findByAlias F a = some u) :
+    u ∈ F.units ∧ a ∈ u.aliases := by
+  unfold findByAlias at h
+  have h1 := List.mem_of_find?_eq_some h
+  have h2 := List.find?_some h
+  exact ⟨h1, by simpa using h2⟩
+
+theorem sniffUnit_some {F : Family} {s : Str} {u : MUnit} (h : sniffUnit F s = some u) :
+    u ∈ F.units ∧ (asciiLower s ∈ u.aliases ∨
+      (2 < (asciiLower s).length ∧ trimS (asciiLower s) ∈ u.aliases)) := by
+  unfold sniffUnit at h
+  simp only at h
+  split at h
+  · rename_i u' hu
+    cases h
+    exact ⟨(findByAlias_some hu).1, Or.inl (findByAlias_some hu).2⟩
+  · split at h
+    · rename_i hl
+      exact ⟨(findByAlias_some h).1, Or.inr ⟨hl, (findByAlias_some h).2⟩⟩
+    · cases h
+
+theorem firstFamily_some {T : Table} {s : Str} {F : Family} {u : MUnit}
+    (h : firstFamily T s = some (F, u)) : F ∈ T ∧ sniffUnit F s = some u := by
+  unfold firstFamily at h
+  obtain ⟨G, hG, hs⟩ := List.exists_of_findSome?_eq_some h
+  cases hsn : sniffUnit G s with
+  | none => simp [hsn] at hs
+  | some w =>
+    simp [hsn] at hs
+    obtain ⟨rfl, rfl⟩ := hs
+    exact ⟨hG, hsn⟩
+
+theorem posU_of_table {T : Table} (hpos : factorsPosB T = true) {F : Family} (hF : F ∈ T) :
+    PosU F.default ∧ ∀ u ∈ F.units, PosU u := by
+  unfold factorsPosB at hpos
+  rw [List.all_eq_true] at hpos
+  have h := hpos F hF
+  simp only [Bool.and_eq_true, List.all_eq_true, posQ, Gen.Units.RawUnit.factor] at h
+  exact ⟨⟨of_decide_eq_true h.1.1, of_decide_eq_true h.1.2⟩,
+    fun u hu => ⟨of_decide_eq_true (h.2 u hu).1, of_decide_eq_true (h.2 u hu).2⟩⟩
+
+namespace Q
+theorem div_mul_cancel (a b : Q) (hn : 0 < b.num) : eqv ((a.div b).mul b) a := by
+  unfold eqv div mul
+  simp only
+  have h1 : b.num.sign = 1 := Int.sign_eq_one_of_pos hn
+  rw [h1]; push_cast; rw [abs_of_pos hn]; ring
+
+theorem mul_div_assoc (a b c : Q) : eqv ((a.mul b).div c) (a.mul (b.div c)) := by
+  unfold eqv div mul; simp only; push_cast; ring
+end Q
+
+/-- the value `convertFrom` returns, times the factor of the unit it is expressed in, is the
+source value times the source factor -/
+theorem convertFrom_magnitude (F : Family) (fu : MUnit) (v : Int) (dst : Str)
+    (hu : ∀ u ∈ F.units, PosU u) :
+    ∃ u, (u ∈ F.units ∨ u = F.default) ∧ (convertFrom F fu v dst).2 = u.name ∧
+      (convertFrom F fu v dst).1 = ((Q.ofInt v).mul fu.factor).div u.factor := by
+  unfold convertFrom
+  simp only
+  split
+  · have hs := autoScale_spec F ((Q.ofInt v).mul fu.factor) hu
+    cases ha : autoScale F ((Q.ofInt v).mul fu.factor) with
+    | none => exact ⟨F.default, Or.inr rfl, rfl, rfl⟩
+    | some r =>
+      rw [ha] at hs
+      obtain ⟨u, hu', hr, _, _⟩ := hs
+      exact ⟨u, Or.inl hu', by simp [hr], by simp [hr]⟩
+  · cases hsn : sniffUnit F dst with
+    | none => exact ⟨F.default, Or.inr rfl, rfl, rfl⟩
+    | some tu => exact ⟨tu, Or.inl (sniffUnit_some hsn).1, rfl, rfl⟩
+
+theorem round2_of_nonneg (q : Q) (hn : 0 ≤ q.num) (hd : 0 < q.den) :
+    round2 q = ⟨(200 * q.num + q.den) / (2 * q.den), 100⟩ := by
+  unfold round2
+  have hd0 : q.den ≠ 0 := by omega
+  simp only [hd0, if_false]
+  congr 1
+  rcases Int.lt_or_eq_of_le hn with hpos | hz
+  · rw [Int.sign_eq_one_of_pos hpos]
+    push_cast
+    rw [abs_of_pos hpos]
+    simp
+  · rw [← hz]
+    simp only [Int.sign_zero, Int.zero_mul, Int.mul_zero, Int.zero_add]
+    have hd' : (0 : Int) < q.den := by exact_mod_cast hd
+    rw [Int.ediv_eq_zero_of_lt (le_of_lt hd') (by omega)]
+
+theorem ediv_mono_cross {A B C D : Int} (hB : 0 < B) (hD : 0 < D) (h : A * D ≤ C * B) :
+    A / B ≤ C / D := by
+  rw [Int.le_ediv_iff_mul_le hD]
+  have h1 : A / B * B ≤ A := Int.ediv_mul_le A (ne_of_gt hB)
+  have h2 : (A / B * D) * B ≤ C * B := by
+    calc (A / B * D) * B = (A / B * B) * D := by ring
+      _ ≤ A * D := Int.mul_le_mul_of_nonneg_right h1 (le_of_lt hD)
+      _ ≤ C * B := h
+  exact Int.le_of_mul_le_mul_right h2 hB
+
+theorem round2_mono (a b : Q) (ha : 0 ≤ a.num) (had : 0 < a.den) (hbd : 0 < b.den)
+    (h : Q.le a b) : Q.le (round2 a) (round2 b) := by
+  have had' : (0 : Int) < a.den := by exact_mod_cast had
+  have hbd' : (0 : Int) < b.den := by exact_mod_cast hbd
+  unfold Q.le at h
+  have hb : 0 ≤ b.num := by
+    by_contra hneg
+    have : b.num * a.den < 0 := Int.mul_neg_of_neg_of_pos (by omega) had'
+    have : 0 ≤ a.num * b.den := Int.mul_nonneg ha (le_of_lt hbd')
+    omega
+  rw [round2_of_nonneg a ha had, round2_of_nonneg b hb hbd]
+  unfold Q.le
+  simp only
+  have := ediv_mono_cross (A := 200 * a.num + a.den) (B := 2 * a.den) (C := 200 * b.num + b.den)
+    (D := 2 * b.den) (by omega) (by omega) (by nlinarith)
+  omega
+
+theorem round2_fix (q : Q) (hn : 0 ≤ q.num) (hd : 0 < q.den)
+    (hc : (100 * q.num) % q.den = 0) : Q.eqv (round2 q) q := by
+  have hd' : (0 : Int) < q.den := by exact_mod_cast hd
+  rw [round2_of_nonneg q hn hd]
+  unfold Q.eqv
+  simp only
+  obtain ⟨k, hk⟩ := Int.dvd_of_emod_eq_zero hc
+  have h1 : 200 * q.num + q.den = (2 * q.den) * k + q.den := by rw [show 200 * q.num = 2 * (100 * q.num) by ring, hk]; ring
+  have h2 : (200 * q.num + q.den) / (2 * q.den) = k := by
+    rw [h1, Int.add_comm, Int.add_mul_ediv_left _ _ (by omega : (2 * (q.den : Int)) ≠ 0)]
+    rw [Int.ediv_eq_zero_of_lt (le_of_lt hd') (by omega)]; simp
+  rw [h2]
+  have : q.num * 100 = q.den * k := by rw [← hk]; ring
+  push_cast
+  nlinarith
+
+theorem round2_ge_one (q : Q) (hd : 0 < q.den) (h : Q.le Q.one q) : Q.le Q.one (round2 q) := by
+  have h1 := round2_mono Q.one q (by decide) (by decide) hd h
+  have : round2 Q.one = ⟨100, 100⟩ := by decide
+  rw [this] at h1
+  unfold Q.le at *
+  simp only [Q.one] at *
+  omega
+
+theorem qual_iff_le (m : Q) (u : MUnit) (hu : PosU u) (hm : 0 ≤ m.num) :
+    Qual m u ↔ Q.le u.factor m := by
+  unfold Qual Q.le Q.abs Q.div Q.one Gen.Units.RawUnit.factor
+  simp only
+  rw [Int.sign_eq_one_of_pos hu.1]
+  push_cast
+  rw [abs_of_pos hu.1, abs_of_nonneg hm]
+  constructor <;> intro h <;> nlinarith
+
+theorem mul_le_mul_eq {a b p q : Int} (h : a ≤ b) (e : p = q) (hq : 0 ≤ q) : a * p ≤ b * q := by
+  subst e; exact Int.mul_le_mul_of_nonneg_right h hq
+
+theorem div_pos_eq (m : Q) (u : MUnit) (hu : PosU u) :
+    m.div u.factor = ⟨m.num * u.fden, m.den * u.fnum.toNat⟩ := by
+  have : u.fnum.natAbs = u.fnum.toNat := by have := hu.1; omega
+  simp [Q.div, Gen.Units.RawUnit.factor, Int.sign_eq_one_of_pos hu.1, this]
+
+
+theorem mulfac_le_same (a b f1 f2 : Q) (ha : a.den = 100) (hb : b.den = 100) (h : Q.le a b)
+    (e : f1.num * f2.den = f2.num * f1.den) (hp : 0 ≤ f2.num * f1.den) :
+    Q.le (a.mul f1) (b.mul f2) := by
+  unfold Q.le at *
+  simp only [Q.mul, ha, hb] at *
+  push_cast
+  have hab : a.num ≤ b.num := by omega
+  have key := mul_le_mul_eq hab e hp
+  linarith [key]
+
+theorem mulfac_le_step (a r f1 f2 : Q) (ha : a.den = 100) (hr : r.den = 100) (h : Q.le a r)
+    (e : r.num * (f2.den * f1.num) = f2.num * f1.den * 100)
+    (p1 : 0 < f1.num) (p2 : 0 < f2.den) : Q.le (a.mul f1) f2 := by
+  unfold Q.le at *
+  simp only [Q.mul, ha, hr] at *
+  push_cast
+  have hab : a.num ≤ r.num := by omega
+  have p2' : (0 : Int) < f2.den := by exact_mod_cast p2
+  have key := Int.mul_le_mul_of_nonneg_right hab (le_of_lt (Int.mul_pos p2' p1))
+  linarith [key, e]
+
+theorem le_mulfac_of_ge_one (b f : Q) (hb : b.den = 100) (h : Q.le Q.one b)
+    (pn : 0 < f.num) (pd : 0 < f.den) : Q.le f (b.mul f) := by
+  unfold Q.le at *
+  simp only [Q.mul, hb, Q.one] at *
+  push_cast
+  have pd' : (0 : Int) < f.den := by exact_mod_cast pd
+  have key := Int.mul_le_mul_of_nonneg_right (show (100 : Int) ≤ b.num by omega) (le_of_lt (Int.mul_pos pn pd'))
+  linarith [key]
+
+/-- the label read back with its unit: `round2 x · f` -/
+theorem autoLabel_mono (F : Family) (hpos : ∀ u ∈ F.units, PosU u) (hcent : centesimalB F = true)
+    (m1 m2 : Q) (h0 : 0 ≤ m1.num) (hd1 : 0 < m1.den) (hd2 : 0 < m2.den) (hle : Q.le m1 m2)
+    (u1 u2 : MUnit) (hu1 : u1 ∈ F.units) (hu2 : u2 ∈ F.units)
+    (hq1 : Qual m1 u1) (hq2 : Qual m2 u2)
+    (hmax1 : ∀ w ∈ F.units, Qual m1 w → Q.le w.factor u1.factor)
+    (hmax2 : ∀ w ∈ F.units, Qual m2 w → Q.le w.factor u2.factor) :
+    Q.le ((round2 (m1.div u1.factor)).mul u1.factor) ((round2 (m2.div u2.factor)).mul u2.factor) := by
+  have P1 := hpos u1 hu1
+  have P2 := hpos u2 hu2
+  obtain ⟨p1n, p1d⟩ := P1
+  obtain ⟨p2n, p2d⟩ := P2
+  have hd1' : (0 : Int) < m1.den := by exact_mod_cast hd1
+  have hd2' : (0 : Int) < m2.den := by exact_mod_cast hd2
+  have p1d' : (0 : Int) < u1.fden := by exact_mod_cast p1d
+  have p2d' : (0 : Int) < u2.fden := by exact_mod_cast p2d
+  have h02 : 0 ≤ m2.num := by
+    unfold Q.le at hle
+    by_contra hneg
+    have : m2.num * m1.den < 0 := Int.mul_neg_of_neg_of_pos (by omega) hd1'
+    have : 0 ≤ m1.num * m2.den := Int.mul_nonneg h0 (le_of_lt hd2')
+    omega
+  have l1 : Q.le u1.factor m1 := (qual_iff_le m1 u1 ⟨p1n, p1d⟩ h0).1 hq1
+  have l2 : Q.le u2.factor m2 := (qual_iff_le m2 u2 ⟨p2n, p2d⟩ h02).1 hq2
+  have l12 : Q.le u1.factor u2.factor := by
+    apply hmax2 u1 hu1
+    rw [qual_iff_le m2 u1 ⟨p1n, p1d⟩ h02]
+    exact Q.le_trans' (b := m1) hd1 p1d hd2 l1 hle
+  have t1 : ((u1.fnum.toNat : Nat) : Int) = u1.fnum := Int.toNat_of_nonneg (le_of_lt p1n)
+  have t2 : ((u2.fnum.toNat : Nat) : Int) = u2.fnum := Int.toNat_of_nonneg (le_of_lt p2n)
+  have x1eq := div_pos_eq m1 u1 ⟨p1n, p1d⟩
+  have x2eq := div_pos_eq m2 u2 ⟨p2n, p2d⟩
+  have x1d : 0 < (m1.div u1.factor).den := by
+    rw [x1eq]; simp only; exact Nat.mul_pos hd1 (by omega)
+  have x2d : 0 < (m2.div u2.factor).den := by
+    rw [x2eq]; simp only; exact Nat.mul_pos hd2 (by omega)
+  have x1n : 0 ≤ (m1.div u1.factor).num := by
+    rw [x1eq]; exact Int.mul_nonneg h0 (le_of_lt p1d')
+  have x2n : 0 ≤ (m2.div u2.factor).num := by
+    rw [x2eq]; exact Int.mul_nonneg h02 (le_of_lt p2d')
+  have rd1 : (round2 (m1.div u1.factor)).den = 100 := by rw [round2_of_nonneg _ x1n x1d]
+  have rd2 : (round2 (m2.div u2.factor)).den = 100 := by rw [round2_of_nonneg _ x2n x2d]
+  by_cases hq12 : Qual m1 u2
+  · -- units of the same size: rounding is monotone
+    have l21 : Q.le u2.factor u1.factor := hmax1 u2 hu2 hq12
+    have e : u1.fnum * u2.fden = u2.fnum * u1.fden := by
+      unfold Q.le at l12 l21; simp only [Gen.Units.RawUnit.factor] at l12 l21; omega
+    have hx : Q.le (m1.div u1.factor) (m2.div u2.factor) := by
+      rw [x1eq, x2eq]
+      unfold Q.le at hle ⊢
+      simp only
+      push_cast
+      rw [t1, t2]
+      have key := mul_le_mul_eq hle (p := u1.fden * u2.fnum) (q := u2.fden * u1.fnum)
+        (by linarith [e]) (le_of_lt (Int.mul_pos p2d' p1n))
+      linarith [key]
+    have hr := round2_mono _ _ x1n x1d x2d hx
+    exact mulfac_le_same _ _ u1.factor u2.factor rd1 rd2 hr e (le_of_lt (Int.mul_pos p2n p1d'))
+  · -- a unit step lies between the two values
+    have nl : ¬ Q.le u2.factor m1 := fun h => hq12 ((qual_iff_le m1 u2 ⟨p2n, p2d⟩ h0).2 h)
+    have lt12 : Q.lt u1.factor u2.factor := by
+      unfold Q.lt
+      by_contra hcon
+      have l21 : Q.le u2.factor u1.factor := by unfold Q.le; omega
+      exact nl (Q.le_trans' (b := u1.factor) p1d p2d hd1 l21 l1)
+    -- R = f2 / f1 is a whole number of hundredths
+    have hc : (100 * u2.fnum * (u1.fden : Int)) % (u2.fden * u1.fnum) = 0 := by
+      unfold centesimalB at hcent
+      rw [List.all_eq_true] at hcent
+      have h1 := hcent u1 hu1
+      rw [List.all_eq_true] at h1
+      have h2 := h1 u2 hu2
+      have : Q.ltB u1.factor u2.factor = true := by simpa [Q.ltB] using lt12
+      simp only [this, Bool.not_true, Bool.false_or, decide_eq_true_eq] at h2
+      exact h2
+    let R : Q := ⟨u2.fnum * u1.fden, u2.fden * u1.fnum.toNat⟩
+    have Rd : 0 < R.den := Nat.mul_pos p2d (by omega)
+    have Rn : 0 ≤ R.num := Int.mul_nonneg (le_of_lt p2n) (le_of_lt p1d')
+    have Rfix : Q.eqv (round2 R) R := by
+      apply round2_fix R Rn Rd
+      show (100 * (u2.fnum * ↑u1.fden)) % ((u2.fden * u1.fnum.toNat : Nat) : Int) = 0
+      push_cast; rw [t1]
+      rw [show 100 * (u2.fnum * (u1.fden : Int)) = 100 * u2.fnum * u1.fden by ring]
+      exact hc
+    have hxR : Q.le (m1.div u1.factor) R := by
+      rw [x1eq]
+      unfold Q.le at nl ⊢
+      simp only [Gen.Units.RawUnit.factor] at nl ⊢
+      show m1.num * ↑u1.fden * ((u2.fden * u1.fnum.toNat : Nat) : Int) ≤ u2.fnum * ↑u1.fden * ((m1.den * u1.fnum.toNat : Nat) : Int)
+      push_cast; rw [t1]
+      have hlt : m1.num * u2.fden ≤ u2.fnum * m1.den := by omega
+      have key := Int.mul_le_mul_of_nonneg_right hlt (le_of_lt (Int.mul_pos p1d' p1n))
+      linarith [key]
+    have hr1 := round2_mono _ _ x1n x1d Rd hxR
+    -- round2 x1 ≤ R, hence (round2 x1)·f1 ≤ f2
+    have A : Q.le ((round2 (m1.div u1.factor)).mul u1.factor) u2.factor := by
+      have rR : (round2 R).den = 100 := by rw [round2_of_nonneg _ Rn Rd]
+      have e : (round2 R).num * ((u2.fden : Int) * u1.fnum) = u2.fnum * u1.fden * 100 := by
+        have := Rfix
+        unfold Q.eqv at this
+        rw [rR] at this
+        have Rden : ((R.den : Nat) : Int) = u2.fden * u1.fnum := by
+          show ((u2.fden * u1.fnum.toNat : Nat) : Int) = _
+          push_cast; rw [t1]
+        rw [Rden] at this
+        exact this
+      exact mulfac_le_step _ (round2 R) u1.factor u2.factor rd1 rR hr1 e p1n p2d
+    have x2ge : Q.le Q.one (m2.div u2.factor) := by
+      have := hq2
+      unfold Qual at this
+      have e : m2.abs = m2 := by
+        cases m2 with | mk n d => simp only [Q.abs]; congr 1; exact Int.natAbs_of_nonneg h02
+      rwa [e] at this
+    have B : Q.le u2.factor ((round2 (m2.div u2.factor)).mul u2.factor) :=
+      le_mulfac_of_ge_one _ u2.factor rd2 (round2_ge_one _ x2d x2ge) p2n p2d
+    refine Q.le_trans' (b := u2.factor) p2d ?_ ?_ A B
+    · show 0 < (round2 (m1.div u1.factor)).den * u1.fden
+      rw [rd1]; exact Nat.mul_pos (by decide) p1d
+    · show 0 < (round2 (m2.div u2.factor)).den * u2.fden
+      rw [rd2]; exact Nat.mul_pos (by decide) p2d
+
+theorem trimS_cases : ∀ s : Str, trimS s = s ∨ s = trimS s ++ [115]
+  | [] => Or.inl rfl
+  | [c] => by
+    unfold trimS
+    by_cases h : c = 115
+    · right; simp [h]
+    · left; simp [h]
+  | c :: d :: cs => by
+    have ih := trimS_cases (d :: cs)
+    have e : trimS (c :: d :: cs) = c :: trimS (d :: cs) := by rw [trimS]
+    rw [e]
+    rcases ih with ih | ih
+    · left; rw [ih]
+    · right; rw [List.cons_append, ← ih]
+
+theorem pairwiseB_forall {α} (r : α → α → Bool) : ∀ (l : List α), pairwiseB r l = true →
+    ∀ x ∈ l, ∀ y ∈ l, x ≠ y → r x y = true ∨ r y x = true
+  | [], _, x, hx, _, _, _ => by cases hx
+  | a :: l, h, x, hx, y, hy, hne => by
+    unfold pairwiseB at h
+    rw [Bool.and_eq_true, List.all_eq_true] at h
+    rcases List.mem_cons.1 hx with rfl | hx' <;> rcases List.mem_cons.1 hy with rfl | hy'
+    · exact absurd rfl hne
+    · exact Or.inl (h.1 y hy')
+    · exact Or.inr (h.1 x hx')
+    · exact pairwiseB_forall r l h.2 x hx' y hy' hne
+
+theorem mem_allAliases {F : Family} {u : MUnit} {a : Str} (hu : u ∈ F.units) (ha : a ∈ u.aliases) :
+    a ∈ allAliases F := by
+  unfold allAliases; exact List.mem_flatMap.2 ⟨u, hu, ha⟩
+
+theorem uniqueFamily_of_disjoint (T : Table) (h : aliasesDisjointB T = true) : UniqueFamily T := by
+  intro s F G u w hF hG hu hw
+  by_contra hne
+  obtain ⟨hu1, hu2⟩ := sniffUnit_some hu
+  obtain ⟨hw1, hw2⟩ := sniffUnit_some hw
+  -- a clash-free pair of alias lists
+  have key : ∀ a ∈ allAliases F, ∀ b ∈ allAliases G, aliasClash a b = false := by
+    intro a ha b hb
+    rcases pairwiseB_forall _ T h F hF G hG hne with hr | hr
+    · rw [List.all_eq_true] at hr
+      have := hr a ha
+      rw [List.all_eq_true] at this
+      simpa using this b hb
+    · rw [List.all_eq_true] at hr
+      have := hr b hb
+      rw [List.all_eq_true] at this
+      have := this a ha
+      simp only [aliasClash, Bool.not_eq_true', Bool.or_eq_false_iff, beq_eq_false_iff_ne, ne_eq] at this ⊢
+      exact ⟨⟨fun h => this.1.1 h.symm, this.2⟩, this.1.2⟩
+  set l := asciiLower s
+  have clash : ∀ a b : Str, (a = l ∨ a = trimS l) → (b = l ∨ b = trimS l) → aliasClash a b = true := by
+    intro a b ha hb
+    unfold aliasClash
+    rcases trimS_cases l with ht | ht
+    · have : a = b := by rcases ha with rfl | rfl <;> rcases hb with rfl | rfl <;> simp [ht]
+      simp [this]
+    · rcases ha with rfl | rfl <;> rcases hb with rfl | rfl
+      · simp
+      · have : (l == trimS l ++ [115]) = true := by rw [← ht]; simp
+        simp [this]
+      · have : (l == trimS l ++ [115]) = true := by rw [← ht]; simp
+        simp [this]
+      · simp
+  obtain ⟨a, haF, hal⟩ : ∃ a, a ∈ allAliases F ∧ (a = l ∨ a = trimS l) := by
+    rcases hu2 with h1 | ⟨_, h2⟩
+    · exact ⟨l, mem_allAliases hu1 h1, Or.inl rfl⟩
+    · exact ⟨trimS l, mem_allAliases hu1 h2, Or.inr rfl⟩
+  obtain ⟨b, hbG, hbl⟩ : ∃ b, b ∈ allAliases G ∧ (b = l ∨ b = trimS l) := by
+    rcases hw2 with h1 | ⟨_, h2⟩
+    · exact ⟨l, mem_allAliases hw1 h1, Or.inl rfl⟩
+    · exact ⟨trimS l, mem_allAliases hw1 h2, Or.inr rfl⟩
+  have := key a haF b hbG
+  rw [clash a b hal hbl] at this
+  cases this
+
+theorem compatU_of_compatible {T : Table} {x y : VT} (h : compatible T x y = true) :
+    CompatU T x.unit y.unit := by
+  unfold compatible at h
+  rw [Bool.and_eq_true, Bool.or_eq_true] at h
+  rcases h.2 with h1 | h1
+  · left; simpa using h1
+  · right
+    unfold sniffsBoth at h1
+    rw [List.any_eq_true] at h1
+    obtain ⟨F, hF, hb⟩ := h1
+    rw [Bool.and_eq_true] at hb
+    exact ⟨F, hF, Option.isSome_iff_exists.1 hb.1, Option.isSome_iff_exists.1 hb.2⟩
+
+theorem CompatU.symm {T : Table} {a b : Str} (h : CompatU T a b) : CompatU T b a := by
+  rcases h with h | ⟨F, hF, h1, h2⟩
+  · exact Or.inl h.symm
+  · exact Or.inr ⟨F, hF, h2, h1⟩
+
+theorem CompatU.trans {T : Table} (hU : UniqueFamily T) {a b c : Str}
+    (h1 : CompatU T a b) (h2 : CompatU T b c) : CompatU T a c := by
+  rcases h1 with rfl | ⟨F, hF, ha, hb⟩
+  · exact h2
+  · rcases h2 with rfl | ⟨G, hG, hb', hc⟩
+    · exact Or.inr ⟨F, hF, ha, hb⟩
+    · obtain ⟨u, hu⟩ := hb
+      obtain ⟨w, hw⟩ := hb'
+      have : F = G := hU b F G u w hF hG hu hw
+      subst this
+      exact Or.inr ⟨F, hF, ha, hc⟩
+
+theorem firstFamily_of_sniff {T : Table} (hU : UniqueFamily T) {F : Family} (hF : F ∈ T) {s : Str}
+    {u : MUnit} (hs : sniffUnit F s = some u) : firstFamily T s = some (F, u) := by
+  cases h : firstFamily T s with
+  | none =>
+    unfold firstFamily at h
+    rw [List.findSome?_eq_none_iff] at h
+    have := h F hF
+    simp [hs] at this
+  | some p =>
+    obtain ⟨G, w⟩ := p
+    obtain ⟨hG, hw⟩ := firstFamily_some h
+    have : G = F := hU s G F w u hG hF hw hs
+    subst this
+    rw [hs] at hw; cases hw; rfl
+
+theorem isAuto_false_of_sniff {T : Table} (hA : autoNotUnitB T = true) {F : Family} (hF : F ∈ T)
+    {s : Str} {u : MUnit} (hs : sniffUnit F s = some u) : isAuto s = false := by
+  unfold autoNotUnitB at hA
+  rw [List.all_eq_true] at hA
+  have h := hA F hF
+  rw [Bool.and_eq_true] at h
+  by_contra hc
+  have hc' : isAuto s = true := by simpa using hc
+  unfold isAuto at hc'
+  rw [Bool.or_eq_true] at hc'
+  rcases hc' with h1 | h1
+  · have : s = sMinimum := by simpa using h1
+    subst this; rw [hs] at h; simp at h
+  · have : s = sAuto := by simpa using h1
+    subst this; rw [hs] at h; simp at h
+
+theorem phys_of_sniff {T : Table} (hU : UniqueFamily T) {F : Family} (hF : F ∈ T) {s : Str}
+    {u : MUnit} (hs : sniffUnit F s = some u) : phys T s = u.factor := by
+  unfold phys; rw [firstFamily_of_sniff hU hF hs]
+
+/-- a value converted between two compatible units keeps its physical size:
+`Scale(v, a, b) · size(b) = v · size(a)` -/
+theorem scale_phys {T : Table} (hpos : factorsPosB T = true) (hU : UniqueFamily T)
+    (hA : autoNotUnitB T = true) {a b : Str} (h : CompatU T a b) (v : Int) :
+    Q.eqv ((scale T v a b).1.mul (phys T b)) ((Q.ofInt v).mul (phys T a)) := by
+  rw [scale_eq_core, scaleCore_eq]
+  have both : ∀ F ∈ T, ∀ ua ub, sniffUnit F a = some ua → sniffUnit F b = some ub →
+      Q.eqv ((convertFrom F ua v b).1.mul ub.factor) ((Q.ofInt v).mul ua.factor) := by
+    intro F hF ua ub ha hb
+    have hauto := isAuto_false_of_sniff hA hF hb
+    unfold convertFrom
+    simp only [hauto, hb]
+    have pb := ((posU_of_table hpos hF).2 ub (sniffUnit_some hb).1)
+    exact Q.div_mul_cancel ((Q.ofInt v).mul ua.factor) ub.factor pb.1
+  rcases h with rfl | ⟨F, hF, ⟨ua, ha⟩, ⟨ub, hb⟩⟩
+  · cases hff : firstFamily T a with
+    | none =>
+      unfold phys passthrough
+      simp only [hff]
+      exact Q.eqv_refl _
+    | some p =>
+      obtain ⟨F, ua⟩ := p
+      obtain ⟨hF, ha⟩ := firstFamily_some hff
+      unfold phys
+      simp only [hff]
+      exact both F hF ua ua ha ha
+  · rw [firstFamily_of_sniff hU hF ha, phys_of_sniff hU hF ha, phys_of_sniff hU hF hb]
+    exact both F hF ua ub ha hb
+
+/-- the ratio `ScaleProfiles` multiplies by is the quotient of the physical sizes of the units -/
+theorem ratio_phys {T : Table} (hpos : factorsPosB T = true) (hU : UniqueFamily T)
+    (hA : autoNotUnitB T = true) {a b : Str} (h : CompatU T a b) :
+    Q.eqv ((scale T 1 a b).1.mul (phys T b)) (phys T a) := by
+  have := scale_phys hpos hU hA h 1
+  unfold Q.eqv at this ⊢
+  simp only [Q.mul, Q.ofInt] at this ⊢
+  push_cast at this ⊢
+  linarith [this]
+
+theorem commonStep_ok {T : Table} {m t r : VT} (h : commonStep T m t = .ok r) :
+    compatible T m t = true ∧ (r = t ∨ r = m) := by
+  unfold commonStep at h
+  split at h
+  · cases h
+  · rename_i hc
+    refine ⟨by simpa using hc, ?_⟩
+    split at h <;> cases h
+    · exact Or.inl rfl
+    · exact Or.inr rfl
+
+theorem commonFold_ok {T : Table} (hU : UniqueFamily T) : ∀ (ts : List VT) (m r : VT),
+    commonFold T m ts = .ok r →
+    CompatU T m.unit r.unit ∧ (∀ t ∈ ts, CompatU T t.unit r.unit) ∧ (r = m ∨ r ∈ ts)
+  | [], m, r, h => by
+    unfold commonFold at h; cases h
+    exact ⟨Or.inl rfl, by simp, Or.inl rfl⟩
+  | t :: ts, m, r, h => by
+    unfold commonFold at h
+    cases hs : commonStep T m t with
+    | ok m' =>
+      rw [hs] at h
+      simp only at h
+      obtain ⟨hc, hm'⟩ := commonStep_ok hs
+      have hmt : CompatU T m.unit t.unit := compatU_of_compatible hc
+      obtain ⟨h1, h2, h3⟩ := commonFold_ok hU ts m' r h
+      have hm : CompatU T m.unit r.unit := by
+        rcases hm' with rfl | rfl
+        · exact hmt.trans hU h1
+        · exact h1
+      have ht : CompatU T t.unit r.unit := by
+        rcases hm' with rfl | rfl
+        · exact h1
+        · exact hmt.symm.trans hU h1
+      refine ⟨hm, ?_, ?_⟩
+      · intro t' ht'
+        rcases List.mem_cons.1 ht' with rfl | ht'
+        · exact ht
+        · exact h2 t' ht'
+      · rcases h3 with rfl | h3
+        · rcases hm' with rfl | rfl
+          · exact Or.inr (by simp)
+          · exact Or.inl rfl
+        · exact Or.inr (List.mem_cons_of_mem _ h3)
+    | err e => rw [hs] at h; cases h
+    | panic s => rw [hs] at h; cases h
+
+theorem commonValueType_ok {T : Table} (hU : UniqueFamily T) {l : List VT} {c : VT}
+    (h : commonValueType T l = .ok (some c)) : c ∈ l ∧ ∀ t ∈ l, CompatU T t.unit c.unit := by
+  match l, h with
+  | [], h => cases h
+  | [_], h => cases h
+  | t0 :: t1 :: rest, h =>
+    simp only [commonValueType] at h
+    cases hf : commonFold T t0 (t1 :: rest) with
+    | ok m =>
+      rw [hf] at h; simp only at h
+      cases h
+      obtain ⟨h1, h2, h3⟩ := commonFold_ok hU _ _ _ hf
+      refine ⟨?_, ?_⟩
+      · rcases h3 with rfl | h3
+        · simp
+        · exact List.mem_cons_of_mem _ h3
+      · intro t ht
+        rcases List.mem_cons.1 ht with rfl | ht
+        · exact h1
+        · exact h2 t ht
+    | err e => rw [hf] at h; cases h
+    | panic s => rw [hf] at h; cases h
+
+theorem commons_spec {T : Table} {ps : List MProf} : ∀ (is : List Nat) (cs : List (Option VT)),
+    commons T ps is = .ok cs →
+    cs.length = is.length ∧
+      ∀ k (h1 : k < is.length) (h2 : k < cs.length),
+        commonValueType T (column ps is[k]) = .ok cs[k]
+  | [], cs, h => by
+    simp only [commons] at h; cases h; exact ⟨rfl, fun k h1 => absurd h1 (by simp)⟩
+  | i :: is, cs, h => by
+    simp only [commons] at h
+    cases hc : commonValueType T (column ps i) with
+    | ok c =>
+      rw [hc] at h; simp only at h
+      cases hr : commons T ps is with
+      | ok cs' =>
+        rw [hr] at h; simp only at h; cases h
+        obtain ⟨hl, hk⟩ := commons_spec is cs' hr
+        refine ⟨by simp [hl], ?_⟩
+        intro k h1 h2
+        cases k with
+        | zero => simpa using hc
+        | succ k => simpa using hk k (by simpa using h1) (by simpa using h2)
+      | err e => rw [hr] at h; cases h
+      | panic s => rw [hr] at h; cases h
+    | err e => rw [hc] at h; cases h
+    | panic s => rw [hc] at h; cases h
+
+
+theorem scale_den_pos {T : Table} (hpos : factorsPosB T = true) (v : Int) (a b : Str) :
+    0 < (scale T v a b).1.den := by
+  rw [scale_eq_core, scaleCore_eq]
+  cases hff : firstFamily T a with
+  | none => simp [passthrough, Q.ofInt]
+  | some p =>
+    obtain ⟨F, ua⟩ := p
+    obtain ⟨hF, ha⟩ := firstFamily_some hff
+    simp only
+    obtain ⟨hd, hu⟩ := posU_of_table hpos hF
+    obtain ⟨u, hu', _, hval⟩ := convertFrom_magnitude F ua v b hu
+    rw [hval]
+    have pu : PosU u := by
+      rcases hu' with h | h
+      · exact hu u h
+      · rw [h]; exact hd
+    have pa := hu ua (sniffUnit_some ha).1
+    rw [div_pos_eq _ u pu]
+    simp only [Q.mul, Q.ofInt, Gen.Units.RawUnit.factor]
+    have := pu.1
+    exact Nat.mul_pos (Nat.mul_pos (by decide) pa.2) (by omega)
+
+theorem scaleType_spec {T : Table} (hpos : factorsPosB T = true) (hU : UniqueFamily T)
+    (hA : autoNotUnitB T = true) (st : VT) (c : Option VT)
+    (hc : ∀ cv, c = some cv → CompatU T st.unit cv.unit) :
+    (scaleType T st c).1.typ = st.typ ∧ 0 < (scaleType T st c).2.den ∧
+    Q.eqv ((scaleType T st c).2.mul (phys T (scaleType T st c).1.unit)) (phys T st.unit) := by
+  cases c with
+  | none =>
+    simp only [scaleType]
+    exact ⟨trivial, by decide, by simp [Q.eqv, Q.mul, Q.one]⟩
+  | some cv =>
+    simp only [scaleType]
+    exact ⟨trivial, scale_den_pos hpos _ _ _, ratio_phys hpos hU hA (hc cv rfl)⟩
+
+theorem scaleOne_harmonised {T : Table} (hpos : factorsPosB T = true) (hU : UniqueFamily T)
+    (hA : autoNotUnitB T = true) (pc : Option VT) (cs : List (Option VT)) (p : MProf)
+    (hlen : cs.length = p.sampleTypes.length)
+    (hcs : ∀ i (h1 : i < p.sampleTypes.length) (h2 : i < cs.length) cv, cs[i] = some cv →
+      CompatU T p.sampleTypes[i].unit cv.unit)
+    (hpc : ∀ pt cv, p.periodType = some pt → pc = some cv → CompatU T pt.unit cv.unit) :
+    Harmonised T p (scaleOne T pc cs p) := by
+  unfold Harmonised scaleOne
+  simp only [List.length_map, List.length_zipWith, hlen, Nat.min_self, List.getElem_map,
+    List.getElem_zipWith, true_and]
+  refine ⟨?_, ?_⟩
+  · intro i h1 _ _
+    exact scaleType_spec hpos hU hA _ _ (fun cv hcv => hcs i h1 (by omega) cv hcv)
+  · cases hp : p.periodType with
+    | none => simp
+    | some pt =>
+      cases hpc' : pc with
+      | none => simp [Q.eqv, Q.mul, Q.ofInt]
+      | some cv =>
+        simp only
+        exact ⟨trivial, scale_phys hpos hU hA (hpc pt cv hp hpc') p.period⟩
+
+theorem mem_column {ps : List MProf} {p : MProf} (hp : p ∈ ps) {i : Nat} (hi : i < p.sampleTypes.length) :
+    p.sampleTypes[i] ∈ column ps i := by
+  unfold column
+  exact List.mem_filterMap.2 ⟨p, hp, by simp [hi]⟩
+
+theorem scaleProfiles_spec {T : Table} (hpos : factorsPosB T = true) (hU : UniqueFamily T)
+    (hA : autoNotUnitB T = true) (ps : List MProf) (out : List MProfOut)
+    (h : scaleProfiles T ps = .ok out) :
+    ∃ f : MProf → MProfOut, out = ps.map f ∧ ∀ p ∈ ps, Harmonised T p (f p) := by
+  unfold scaleProfiles at h
+  match ps, h with
+  | [], h => cases h; exact ⟨fun p => scaleOne T none [] p, rfl, by simp⟩
+  | p0 :: rest, h =>
+    simp only at h
+    cases hpc : commonValueType T ((p0 :: rest).filterMap (·.periodType)) with
+    | err e => rw [hpc] at h; cases h
+    | panic s => rw [hpc] at h; cases h
+    | ok pc =>
+      rw [hpc] at h; simp only at h
+      split at h
+      · cases h
+      · rename_i hlen
+        cases hcs : commons T (p0 :: rest) (List.range p0.sampleTypes.length) with
+        | err e => rw [hcs] at h; cases h
+        | panic s => rw [hcs] at h; cases h
+        | ok cs =>
+          rw [hcs] at h; simp only at h; cases h
+          obtain ⟨hl, hk⟩ := commons_spec _ _ hcs
+          rw [List.length_range] at hl
+          have hall : ∀ p ∈ p0 :: rest, p.sampleTypes.length = p0.sampleTypes.length := by
+            intro p hp
+            rcases List.mem_cons.1 hp with rfl | hp
+            · rfl
+            · have : ¬ (rest.any fun p => p.sampleTypes.length != p0.sampleTypes.length) = true := hlen
+              rw [List.any_eq_true] at this
+              by_contra hne
+              exact this ⟨p, hp, by simpa using hne⟩
+          refine ⟨scaleOne T pc cs, rfl, ?_⟩
+          intro p hp
+          apply scaleOne_harmonised hpos hU hA pc cs p (by rw [hl, hall p hp])
+          · intro i h1 h2 cv hcv
+            have hi : i < (List.range p0.sampleTypes.length).length := by
+              rw [List.length_range, ← hall p hp]; exact h1
+            have := hk i hi h2
+            rw [List.getElem_range, hcv] at this
+            exact (commonValueType_ok hU this).2 _ (mem_column hp h1)
+          · intro pt cv hpt hcv
+            rw [hcv] at hpc
+            exact (commonValueType_ok hU hpc).2 pt (List.mem_filterMap.2 ⟨p, hp, hpt⟩)
+
+/-- `Σ (v_k · r) = (Σ v_k) · r`, stated without dividing -/
+theorem sum_mul_ratio (r : Q) : ∀ vs : List Int,
+    (Q.sum (vs.map fun v => (Q.ofInt v).mul r)).num * r.den =
+      vs.sum * r.num * (Q.sum (vs.map fun v => (Q.ofInt v).mul r)).den
+  | [] => by simp [Q.sum, Q.zero]
+  | v :: vs => by
+    have ih := sum_mul_ratio r vs
+    simp only [List.map_cons, Q.sum, Q.add, Q.mul, Q.ofInt, List.sum_cons] at ih ⊢
+    push_cast at ih ⊢
+    nlinarith [ih]
+
+theorem sum_den_pos (r : Q) (hr : 0 < r.den) : ∀ vs : List Int,
+    0 < (Q.sum (vs.map fun v => (Q.ofInt v).mul r)).den
+  | [] => by simp [Q.sum, Q.zero]
+  | v :: vs => by
+    have ih := sum_den_pos r hr vs
+    simp only [List.map_cons, Q.sum, Q.add, Q.mul, Q.ofInt]
+    exact Nat.mul_pos (Nat.mul_pos (by decide) hr) ih
+
+theorem filterMap_zipWith_col (rows : List (List Int)) (rs : List Q) (i : Nat) (hi : i < rs.length)
+    (hrows : ∀ s ∈ rows, s.length = rs.length) :
+    (rows.map fun s => List.zipWith (fun v r => (Q.ofInt v).mul r) s rs).filterMap (·[i]?) =
+      (rows.filterMap (·[i]?)).map fun v => (Q.ofInt v).mul rs[i] := by
+  induction rows with
+  | nil => rfl
+  | cons s rows ih =>
+    have hs : s.length = rs.length := hrows s (by simp)
+    have hi' : i < s.length := by omega
+    have ih' := ih (fun t ht => hrows t (by simp [ht]))
+    simp only [List.map_cons, List.filterMap_cons]
+    rw [List.getElem?_eq_getElem (by simp [hs, hi]), List.getElem?_eq_getElem hi']
+    simp only [List.getElem_zipWith, List.map_cons]
+    rw [ih']
+
+/-- the physical total of every column is preserved: `Σ' · size(new) = Σ · size(old)` -/
+theorem harmonised_totals {T : Table} {p : MProf} {o : MProfOut} (h : Harmonised T p o)
+    (hrows : ∀ s ∈ p.samples, s.length = p.sampleTypes.length)
+    (i : Nat) (h1 : i < p.sampleTypes.length) (h2 : i < o.sampleTypes.length) :
+    Q.eqv ((colTotalQ o.samples i).mul (phys T o.sampleTypes[i].unit))
+      ((Q.ofInt (colTotal p.samples i)).mul (phys T p.sampleTypes[i].unit)) := by
+  obtain ⟨_, hl2, hcol, hs, _⟩ := h
+  have h3 : i < o.ratios.length := by omega
+  obtain ⟨_, hden, hr⟩ := hcol i h1 h2 h3
+  unfold colTotalQ colTotal
+  rw [hs, filterMap_zipWith_col p.samples o.ratios i h3 (fun s hs' => by rw [hrows s hs', hl2])]
+  have hsum := sum_mul_ratio o.ratios[i] (p.samples.filterMap (·[i]?))
+  have hdp := sum_den_pos o.ratios[i] hden (p.samples.filterMap (·[i]?))
+  generalize Q.sum ((p.samples.filterMap (·[i]?)).map fun v => (Q.ofInt v).mul o.ratios[i]) = S at hsum hdp
+  generalize (p.samples.filterMap (·[i]?)).sum = tot at hsum
+  generalize o.ratios[i] = r at hsum hr hden
+  generalize phys T o.sampleTypes[i].unit = fn at hr
+  generalize phys T p.sampleTypes[i].unit = fo at hr
+  unfold Q.eqv at hr ⊢
+  simp only [Q.mul, Q.ofInt] at hr ⊢
+  push_cast at hr ⊢
+  have hd' : (0 : Int) < r.den := by exact_mod_cast hden
+  -- S.num * r.den = tot * r.num * S.den ;  r.num * fn.num * fo.den = fo.num * (r.den * fn.den)
+  apply Int.eq_of_mul_eq_mul_right (ne_of_gt hd')
+  calc S.num * fn.num * (1 * ↑fo.den) * ↑r.den
+      = (S.num * ↑r.den) * (fn.num * ↑fo.den) := by ring
+    _ = (tot * r.num * ↑S.den) * (fn.num * ↑fo.den) := by rw [hsum]
+    _ = tot * ↑S.den * (r.num * fn.num * ↑fo.den) := by ring
+    _ = tot * ↑S.den * (fo.num * (↑r.den * ↑fn.den)) := by rw [hr]
+    _ = tot * fo.num * (↑S.den * ↑fn.den) * ↑r.den := by ring
 end PV.Measure
